@@ -9,12 +9,28 @@ Parts
 
 Shares the document generator, the independent comparison and the feature labels with b_C01.
 The written text is inspected with json / yaml.safe_load directly, never through the library's reader.
+
+Documents (c02_documents): the shared generator (freshly constructed documents) plus documents with an EDITING
+HISTORY - what is saved must be what the document shows at that moment, whatever operations it went through:
+  merge grids      one document per mechanism (Section.merge strict / lenient, link set while attached, link from the
+                   constructor + Document.finalize(), clean(), un-link, unmerge, include through a pre-loaded
+                   terminology, edits / clones after a merge) x every combination of own / taken-over definition and
+                   reference, with Property merges and nested Section merges
+  random histories generated documents x a random sequence of public-API operations (reorder, rename, move, remove and
+                   append, clone / clone(keep_id) and re-attach, merge of Sections and Properties strict on/off, link /
+                   include / repository, clean, finalize, unmerge, value edits, dtype and cardinality changes, attribute
+                   edits incl. '' and None, new_id, create_*/extend/insert, going through a load) and a projection
+                   (the document itself, Document.clone, clone(keep_id), export_leaf of a Section / Property)
+  fixed            link / include / repository given to the constructors (never resolved)
+History documents get a rotating selection of entry points (every writer and every reader once per format) and are
+written over an existing longer file.
 """
 from __future__ import annotations
 
 import datetime as dt
 import json
 import os
+import random
 
 import yaml
 
@@ -58,16 +74,680 @@ def own_layout_keys():
 
 
 # ---------------------------------------------------------------------------------------------
+# documents with an editing history
+# (this block needs only rcc.harness, odml and ODMLReader / ODMLWriter: it can move to harness.py next to gen_docs,
+#  so that b_C01 can run its XML round trip over history_documents() as well)
+# ---------------------------------------------------------------------------------------------
+# The terminology the include attributes point to is put into the library's terminology cache up front, so that
+# no network access and no loader thread is needed (terminology.load / deferred_load return cached entries).
+TERM_URL = 'http://c02.invalid/terminology.xml'
+SRC_STATES = [(sd, sr) for sd in (None, 'source definition') for sr in (None, 'http://c02.invalid/source-ref')]
+DST_DEFS = ['none', 'same', 'different']
+DST_REFS = [None, 'own reference']
+
+
+def _source_section(name, sdef, sref, parent):
+    """A merge source: definition / reference as given, a Property the destination also has (other values, more
+    attributes), one it does not have, and a sub-Section with a definition."""
+    src = odml.Section(name=name, type='grid', parent=parent, definition=sdef, reference=sref)
+    odml.Property(name='shared', dtype='int', values=[2, 3], parent=src, unit='mV', definition='shared def',
+                  uncertainty=0)
+    odml.Property(name='extra', dtype='string', values=[' yes ', 'null'], parent=src, reference='extra ref')
+    sub = odml.Section(name='sub', type='grid/sub', parent=src, definition='sub definition', reference=sref)
+    odml.Property(name='deep', dtype='float', values=[0.0], parent=sub, value_origin='origin.dat')
+    return src
+
+
+def install_terminology():
+    """(Re-)install the terminology document under TERM_URL; -> the document."""
+    from odml import terminology
+    with h.quiet():
+        term = odml.Document(author='terminology', version='1')
+        for k, (sdef, sref) in enumerate(SRC_STATES):
+            _source_section('t%d' % k, sdef, sref, term)
+    terminology.terminologies[TERM_URL] = term
+    terminology.terminologies.loading.pop(TERM_URL, None)
+    return term
+
+
+MECHANISMS = ['merge-strict', 'merge-lenient', 'link-attached', 'link-relative', 'link-ctor-unresolved',
+              'link-ctor+finalize', 'link+clean', 'link+clean+finalize', 'link+unlink', 'merge+unmerge',
+              'include-attached', 'include-ctor-unresolved', 'include-ctor+finalize', 'include+clean',
+              'merge+own-edit', 'merge+clone-keep-id', 'merge+clone', 'link+reload']
+
+
+def merge_grid_doc(mech, part=None):
+    """One document: for every combination of source (definition, reference) and destination (no / the same /
+    another definition, no / own reference) a destination Section that goes through `mech` with its source.
+    part=(r, n): only the combinations number k with k % n == r (the quick tier spreads the grid over the mechanisms)."""
+    install_terminology()
+    with h.quiet():
+        doc = odml.Document(author='grid', version=mech, date=dt.date(2024, 2, 29))
+        srcroot = odml.Section(name='src', type='grid', parent=doc)
+        dstroot = odml.Section(name='dst', type='grid', parent=doc, definition='destinations')
+        pairs = []
+        k = 0
+        for si, (sdef, sref) in enumerate(SRC_STATES):
+            for ddef in DST_DEFS:
+                for dref in DST_REFS:
+                    if part is not None and k % part[1] != part[0]:
+                        k += 1
+                        continue
+                    relative = mech == 'link-relative'
+                    src = _source_section('s%d' % k, sdef, sref, dstroot if relative else srcroot)
+                    if mech.startswith('include'):
+                        target = '%s#/t%d' % (TERM_URL, si)
+                    else:
+                        target = '../s%d' % k if relative else '/src/s%d' % k
+                    kw = {}
+                    if mech.startswith('link-ctor'):
+                        kw['link'] = target
+                    if mech.startswith('include-ctor'):
+                        kw['include'] = target
+                    own_def = {'none': None, 'same': sdef or 'own definition', 'different': 'another definition'}[ddef]
+                    dst = odml.Section(name='d%d' % k, type='grid', parent=dstroot, definition=own_def,
+                                       reference=dref, **kw)
+                    odml.Property(name='shared', dtype='int', values=[1, 2], parent=dst)
+                    odml.Property(name='own', dtype='string', values=['mine'], parent=dst, definition='own def')
+                    if k % 2:
+                        # a sub-Section of the same name and type: merged recursively, takes over from the source's
+                        odml.Section(name='sub', type='grid/sub', parent=dst)
+                    pairs.append((dst, src, target))
+                    k += 1
+        for dst, src, target in pairs:
+            if mech in ('merge-strict', 'merge+unmerge', 'merge+own-edit', 'merge+clone-keep-id', 'merge+clone'):
+                h.call(dst.merge, src)                      # may refuse (differing definitions): nothing merged then
+            elif mech == 'merge-lenient':
+                h.call(dst.merge, src, strict=False)
+            elif mech in ('link-attached', 'link-relative', 'link+clean', 'link+clean+finalize', 'link+unlink',
+                          'link+reload'):
+                h.call(setattr, dst, 'link', target)
+            elif mech in ('include-attached', 'include+clean'):
+                h.call(setattr, dst, 'include', target)
+        if mech.endswith('+finalize'):
+            if mech == 'link+clean+finalize':
+                h.call(doc.clean)
+            h.call(doc.finalize)
+        elif mech.endswith('+clean'):
+            h.call(doc.clean)
+        for i, (dst, src, target) in enumerate(pairs):
+            if mech == 'link+unlink':
+                h.call(setattr, dst, 'link', None)
+            elif mech == 'merge+unmerge':
+                h.call(dst.unmerge, src)
+            elif mech == 'merge+own-edit':
+                # the user overrides / removes what the merge brought, or sets what it did not bring
+                if i % 3 == 0:
+                    dst.definition = 'edited after the merge'
+                elif i % 3 == 1:
+                    dst.reference = None
+                else:
+                    dst.reference = 'reference set after the merge'
+                    h.call(dst.properties['shared'].append, 99)
+            elif mech in ('merge+clone-keep-id', 'merge+clone'):
+                par = dst.parent
+                pos = par.sections.index(dst)
+                clone = dst.clone(keep_id=mech.endswith('keep-id'))
+                par.remove(dst)
+                par.insert(pos, clone)
+        if mech == 'link+reload':
+            # the resolved document goes through a file format and is resolved again
+            k2, text = h.call(ODMLWriter('YAML').to_string, doc)
+            if k2 == 'ret':
+                k2, again = h.call(ODMLReader('YAML', show_warnings=False).from_string, text)
+                if k2 == 'ret' and isinstance(again, h.BaseDocument):
+                    h.call(again.finalize)
+                    doc = again
+    return doc
+
+
+def doc_unresolved():
+    """link / include / repository as given to the constructors: attributes that were set, nothing resolved."""
+    install_terminology()
+    with h.quiet():
+        doc = odml.Document(author='u', repository=TERM_URL)
+        a = odml.Section(name='a', type='t', parent=doc, repository=TERM_URL, definition='a def')
+        odml.Property(name='p', values=[1], parent=a)
+        odml.Section(name='to-a', type='t', parent=doc, link='/a')
+        odml.Section(name='rel', type='t', parent=a, link='..')
+        odml.Section(name='inc', type='t', parent=doc, include=TERM_URL + '#/t3')
+        odml.Section(name='inc-whole', type='t', parent=a, include=TERM_URL, reference='r')
+        odml.Section(name='dangling', type='t', parent=doc, link='/no/such/section')
+    return doc
+
+
+HIST_CARDS = list(h.CARDS) + [(1, 1), (3, 3), (None, 1)]
+HIST_TEXTS = ['edited', ' padded edit ', 'yes', '1e3', 'Größe', 'two\nlines', '~', '2020-01-01']
+HIST_NAMES = ['renamed', 'n', 'Ab', 'x y', 'señal', 'null', '2020-01-01']
+DTYPE_SWITCH = {'string': ['text', 'person', 'url'], 'text': ['string'], 'int': ['float', 'string'],
+                'float': ['int', 'string'], 'boolean': ['string', 'int'], 'date': ['string', 'datetime'],
+                'time': ['string'], 'datetime': ['string', 'date'], 'url': ['string'], 'person': ['string', 'text'],
+                '2-tuple': ['string', '3-tuple'], '3-tuple': ['string']}
+
+
+def _pick(rnd, seq):
+    return seq[rnd.randrange(len(seq))] if seq else None
+
+
+def _fresh(rnd, taken):
+    name = rnd.choice(HIST_NAMES)
+    while name in taken:
+        name += rnd.choice(['a', 'b', '1'])
+    return name
+
+
+def _names(objs):
+    return [o.name for o in objs]
+
+
+def _unrelated(a, b):
+    return a is not b and not h._below(a, b) and not h._below(b, a)
+
+
+class History(object):
+    """A document, a random generator and the operations applied so far. Every operation goes through the
+    public API; one that the library refuses (raises) simply did not happen."""
+
+    def __init__(self, doc, rnd, work):
+        self.doc, self.rnd, self.work, self.ops = doc, rnd, work, []
+
+    # -- selection -----------------------------------------------------------------------------
+    def secs(self):
+        return h.walk(self.doc)[0]
+
+    def props(self):
+        return h.walk(self.doc)[1]
+
+    def sec(self, pred=lambda s: True):
+        return _pick(self.rnd, [s for s in self.secs() if pred(s)])
+
+    def prop(self, pred=lambda p: True):
+        return _pick(self.rnd, [p for p in self.props() if pred(p)])
+
+    def container(self, avoid=None, with_doc=True):
+        """A Section (or the Document) that does not lie below `avoid`."""
+        cands = ([self.doc] if with_doc else []) + self.secs()
+        return _pick(self.rnd, [c for c in cands if avoid is None or not h._below(c, avoid)])
+
+    def do(self, fn, *a, **kw):
+        return h.call(fn, *a, **kw)
+
+    # -- Section operations --------------------------------------------------------------------
+    def op_sec_reorder(self):
+        s = self.sec()
+        if s is not None:
+            self.do(s.reorder, self.rnd.randrange(len(s.parent.sections)))
+
+    def op_sec_rename(self):
+        s = self.sec()
+        if s is not None:
+            self.do(setattr, s, 'name', _fresh(self.rnd, _names(s.parent.sections)))
+
+    def op_sec_move(self):
+        s = self.sec()
+        t = None if s is None else self.container(avoid=s)
+        if t is None or s.name in _names(t.sections):
+            return
+        how = self.rnd.randrange(3)
+        if how == 0:
+            self.do(t.append, s)
+        elif how == 1:
+            self.do(setattr, s, 'parent', t)
+        else:
+            self.do(t.insert, self.rnd.randrange(len(t.sections) + 1), s)
+
+    def op_sec_remove_append(self):
+        s = self.sec()
+        if s is None:
+            return
+        par = s.parent
+        if self.rnd.random() < 0.5:
+            self.do(setattr, s, 'parent', par)          # re-assigning the parent moves it to the end
+        elif self.do(par.remove, s)[0] == 'ret':
+            self.do(par.append, s)
+
+    def op_sec_clone_attach(self):
+        s = self.sec()
+        t = None if s is None else self.container(avoid=s)
+        if t is None:
+            return
+        k, c = self.do(s.clone)
+        if k == 'ret':
+            if c.name in _names(t.sections):
+                self.do(setattr, c, 'name', _fresh(self.rnd, _names(t.sections)))
+            self.do(t.append, c)
+
+    def op_sec_clone_replace(self):
+        s = self.sec()
+        if s is None:
+            return
+        par = s.parent
+        pos = par.sections.index(s)
+        kw = self.rnd.choice([{'keep_id': True}, {'keep_id': True}, {}, {'keep_id': True, 'children': False}])
+        k, c = self.do(s.clone, **kw)
+        if k == 'ret' and self.do(par.remove, s)[0] == 'ret':
+            self.do(par.insert, pos, c)
+
+    def op_sec_attr(self):
+        s = self.sec()
+        if s is not None:
+            attr = self.rnd.choice(['definition', 'reference', 'definition', 'reference', 'type'])
+            val = self.rnd.choice(HIST_TEXTS + [None, ''] if attr != 'type' else ['t2', 'a/b', 'yes'])
+            self.do(setattr, s, attr, val)
+
+    def op_sec_card(self):
+        s = self.sec()
+        if s is None:
+            return
+        card = self.rnd.choice(HIST_CARDS + [2, 0])
+        how = self.rnd.randrange(3)
+        if how == 0 and isinstance(card, tuple):
+            self.do(s.set_sections_cardinality, card[0], card[1])
+        elif how == 1 and isinstance(card, tuple):
+            self.do(s.set_properties_cardinality, card[0], card[1])
+        else:
+            self.do(setattr, s, self.rnd.choice(['sec_cardinality', 'prop_cardinality']), card)
+
+    def op_sec_merge(self):
+        s = self.sec()
+        if s is None:
+            return
+        other = self.sec(lambda o: _unrelated(o, s))
+        if other is None or self.rnd.random() < 0.3:
+            with h.quiet():
+                other = odml.Section(name='template', type=s.type, definition=self.rnd.choice([None, 'template def']),
+                                     reference=self.rnd.choice([None, 'template ref']))
+                odml.Property(name=self.rnd.choice(['a', 'tp']), dtype='string', values=['from template'],
+                              parent=other, unit=self.rnd.choice([None, 'mV']))
+                odml.Section(name=self.rnd.choice(['a', 'tsub']), type='t', parent=other, definition='tsub def')
+        self.do(s.merge, other, strict=self.rnd.random() < 0.5)
+
+    def op_sec_link(self):
+        s = self.sec(lambda x: x.include is None)
+        other = None if s is None else self.sec(lambda o: _unrelated(o, s))
+        if other is not None:
+            k, path = self.do(other.get_path) if self.rnd.random() < 0.6 else self.do(s.get_relative_path, other)
+            if k == 'ret':
+                self.do(setattr, s, 'link', path)
+
+    def op_sec_link_ctor(self):
+        t = self.container()
+        other = self.sec()
+        if other is not None and t is not None:
+            k, path = self.do(other.get_path)
+            if k == 'ret':
+                self.do(odml.Section, name=_fresh(self.rnd, _names(t.sections)), type=other.type, link=path, parent=t)
+
+    def op_sec_include(self):
+        s = self.sec(lambda x: x.link is None)
+        if s is not None:
+            self.do(setattr, s, 'include', self.rnd.choice([TERM_URL, TERM_URL + '#/t%d' % self.rnd.randrange(4)]))
+
+    def op_sec_unlink(self):
+        s = self.sec(lambda x: x.link is not None or x.include is not None)
+        if s is not None:
+            self.do(setattr, s, 'link' if s.link is not None else 'include', None)
+
+    def op_clean(self):
+        target = self.doc if self.rnd.random() < 0.5 else (self.sec() or self.doc)
+        self.do(target.clean)
+
+    def op_finalize(self):
+        self.do(self.doc.finalize)
+
+    def op_sec_unmerge(self):
+        s = self.sec(lambda x: x.is_merged)
+        if s is not None:
+            self.do(s.unmerge, s.get_merged_equivalent())
+
+    def op_sec_repository(self):
+        target = self.doc if self.rnd.random() < 0.3 else (self.sec() or self.doc)
+        self.do(setattr, target, 'repository', self.rnd.choice([TERM_URL, TERM_URL, None, '']))
+
+    def op_new_id(self):
+        target = self.rnd.choice([self.doc] + self.secs() + self.props())
+        self.do(target.new_id)
+
+    def op_create(self):
+        t = self.container()
+        how = self.rnd.randrange(4)
+        if how == 0:
+            self.do(t.create_section, _fresh(self.rnd, _names(t.sections)), 'created',
+                    definition=self.rnd.choice([None, 'created def']))
+        elif how == 1 and t is not self.doc:
+            dtype = self.rnd.choice(sorted(h.VALUE_POOL))
+            self.do(t.create_property, _fresh(self.rnd, _names(t.properties)),
+                    list(self.rnd.choice(h.VALUE_POOL[dtype])), dtype)
+        elif how == 2:
+            with h.quiet():
+                new = [odml.Section(name=_fresh(self.rnd, _names(t.sections)), type='ext')]
+                if t is not self.doc:
+                    new.append(odml.Property(name=_fresh(self.rnd, _names(t.properties)), values=[1.5, 2.5]))
+                    new.reverse()
+            self.do(t.extend, new)
+        else:
+            with h.quiet():
+                new = odml.Section(name=_fresh(self.rnd, _names(t.sections)), type='ins', reference='ins ref')
+                odml.Property(name='ip', dtype='boolean', values=[False], parent=new)
+            self.do(t.insert, self.rnd.randrange(len(t.sections) + 1), new)
+
+    def op_sec_drop(self):
+        s = self.sec()
+        if s is not None and len(self.secs()) > 1:
+            self.do(s.parent.remove, s)
+
+    # -- Property operations -------------------------------------------------------------------
+    def op_prop_reorder(self):
+        p = self.prop()
+        if p is not None:
+            self.do(p.reorder, self.rnd.randrange(len(p.parent.properties)))
+
+    def op_prop_rename(self):
+        p = self.prop()
+        if p is not None:
+            self.do(setattr, p, 'name', _fresh(self.rnd, _names(p.parent.properties)))
+
+    def op_prop_move(self):
+        p = self.prop()
+        t = None if p is None else self.sec(lambda s: s is not p.parent and p.name not in _names(s.properties))
+        if t is None:
+            return
+        how = self.rnd.randrange(3)
+        if how == 0:
+            self.do(t.append, p)
+        elif how == 1:
+            self.do(setattr, p, 'parent', t)
+        else:
+            self.do(t.insert, self.rnd.randrange(len(t.properties) + 1), p)
+
+    def op_prop_remove_append(self):
+        p = self.prop()
+        if p is None:
+            return
+        par = p.parent
+        if self.rnd.random() < 0.5:
+            self.do(setattr, p, 'parent', par)
+        elif self.do(par.remove, p)[0] == 'ret':
+            self.do(par.append, p)
+
+    def op_prop_clone(self):
+        p = self.prop()
+        if p is None:
+            return
+        par = p.parent
+        if self.rnd.random() < 0.5:
+            pos = par.properties.index(p)
+            k, c = self.do(p.clone, keep_id=True)
+            if k == 'ret' and self.do(par.remove, p)[0] == 'ret':
+                self.do(par.insert, pos, c)
+        else:
+            t = self.sec()
+            k, c = self.do(p.clone)
+            if k == 'ret':
+                if c.name in _names(t.properties):
+                    self.do(setattr, c, 'name', _fresh(self.rnd, _names(t.properties)))
+                self.do(t.append, c)
+
+    def _value(self, p):
+        pool = h.VALUE_POOL.get(p.dtype) or [['x']]
+        return self.rnd.choice(self.rnd.choice(pool))
+
+    def op_prop_values(self):
+        p = self.prop()
+        if p is None:
+            return
+        how = self.rnd.randrange(8)
+        if how == 0:
+            self.do(setattr, p, 'values', list(self.rnd.choice(h.VALUE_POOL.get(p.dtype) or [['x']])))
+        elif how == 1:
+            self.do(setattr, p, 'values', self.rnd.choice([[], None]))
+        elif how == 2:
+            self.do(p.append, self._value(p))
+        elif how == 3:
+            self.do(p.extend, [self._value(p), self._value(p)])
+        elif how == 4:
+            self.do(p.insert, 0, self._value(p))
+        elif how == 5 and len(p) > 0:
+            self.do(p.remove, p.values[self.rnd.randrange(len(p))])
+        elif how == 6 and len(p) > 0:
+            self.do(p.__setitem__, self.rnd.randrange(len(p)), self._value(p))
+        elif how == 7:
+            self.do(setattr, p, 'value', self._value(p))          # the deprecated alias
+
+    def op_prop_dtype(self):
+        p = self.prop()
+        if p is not None:
+            self.do(setattr, p, 'dtype', self.rnd.choice(DTYPE_SWITCH.get(p.dtype) or ['string']))
+
+    def op_prop_attr(self):
+        p = self.prop()
+        if p is None:
+            return
+        attr = self.rnd.choice(['unit', 'uncertainty', 'definition', 'reference', 'dependency', 'dependency_value',
+                                'value_origin'])
+        if attr == 'uncertainty':
+            val = self.rnd.choice([0, 0.0, 0.5, 3, None, ''])
+        else:
+            val = self.rnd.choice(HIST_TEXTS + [None, ''])
+        self.do(setattr, p, attr, val)
+
+    def op_prop_card(self):
+        p = self.prop()
+        if p is None:
+            return
+        card = self.rnd.choice(HIST_CARDS + [2])
+        if isinstance(card, tuple) and self.rnd.random() < 0.5:
+            self.do(p.set_values_cardinality, card[0], card[1])
+        else:
+            self.do(setattr, p, 'val_cardinality', card)
+
+    def op_prop_merge(self):
+        p = self.prop()
+        if p is None:
+            return
+        other = self.prop(lambda o: o is not p and o.dtype == p.dtype)
+        if other is None or self.rnd.random() < 0.5:
+            k, other = self.do(p.clone)
+            if k == 'exc':
+                return
+            self.do(setattr, other, 'values', list(self.rnd.choice(h.VALUE_POOL.get(p.dtype) or [['x']])))
+            for attr, val in (('unit', 'kHz'), ('definition', 'merged-in definition'), ('uncertainty', 0),
+                              ('reference', 'merged-in ref'), ('value_origin', 'merged.dat')):
+                if self.rnd.random() < 0.5:
+                    self.do(setattr, other, attr, val)
+        self.do(p.merge, other, strict=self.rnd.random() < 0.5)
+
+    def op_prop_drop(self):
+        p = self.prop()
+        if p is not None:
+            self.do(p.parent.remove, p)
+
+    # -- Document operations -------------------------------------------------------------------
+    def op_doc_attr(self):
+        attr = self.rnd.choice(['author', 'version', 'date'])
+        if attr == 'date':
+            val = self.rnd.choice([dt.date(2001, 2, 3), '2011-12-13', None, ''])
+        else:
+            val = self.rnd.choice(HIST_TEXTS + [None, ''])
+        self.do(setattr, self.doc, attr, val)
+
+    def op_through_load(self):
+        """The document is saved and loaded (string or file entry points); editing goes on with what was loaded."""
+        fmt = self.rnd.choice(['JSON', 'YAML', 'XML'])
+        if self.rnd.random() < 0.5:
+            k, text = self.do(ODMLWriter(fmt).to_string, self.doc)
+            if k == 'exc':
+                return
+            k, loaded = self.do(ODMLReader(fmt, show_warnings=False).from_string, text)
+        else:
+            path = os.path.join(self.work, 'history.' + fmt.lower())
+            if self.do(odml.save, self.doc, path, fmt)[0] == 'exc':
+                return
+            k, loaded = self.do(odml.load, path, fmt, show_warnings=False)
+        if k == 'ret' and isinstance(loaded, h.BaseDocument):
+            self.doc = loaded
+
+    OPS = [('sec_reorder', 3), ('sec_rename', 3), ('sec_move', 3), ('sec_remove_append', 2), ('sec_clone_attach', 3),
+           ('sec_clone_replace', 3), ('sec_attr', 3), ('sec_card', 2), ('sec_merge', 5), ('sec_link', 5),
+           ('sec_link_ctor', 1), ('sec_include', 2), ('sec_unlink', 2), ('clean', 3), ('finalize', 2),
+           ('sec_unmerge', 2), ('sec_repository', 1), ('new_id', 1), ('create', 3), ('sec_drop', 1),
+           ('prop_reorder', 3), ('prop_rename', 2), ('prop_move', 3), ('prop_remove_append', 2), ('prop_clone', 3),
+           ('prop_values', 6), ('prop_dtype', 2), ('prop_attr', 4), ('prop_card', 2), ('prop_merge', 4),
+           ('prop_drop', 1), ('doc_attr', 2), ('through_load', 2)]
+
+    def run(self, n_ops):
+        names = [n for n, w in self.OPS for _ in range(w)]
+        for _ in range(n_ops):
+            name = self.rnd.choice(names)
+            self.ops.append(name)
+            with h.quiet():
+                getattr(self, 'op_' + name)()
+        return self
+
+    def projection(self):
+        """What is finally saved: the document itself, a clone of it, or the export of one leaf."""
+        r = self.rnd.random()
+        how, out = 'self', self.doc
+        if r < 0.10:
+            how, (k, out) = 'Document.clone', self.do(self.doc.clone)
+        elif r < 0.20:
+            how, (k, out) = 'Document.clone(keep_id)', self.do(self.doc.clone, keep_id=True)
+        elif r < 0.30 and self.secs():
+            how, (k, out) = 'Section.export_leaf', self.do(self.sec().export_leaf)
+        elif r < 0.36 and self.props():
+            how, (k, out) = 'Property.export_leaf', self.do(self.prop().export_leaf)
+        if not isinstance(out, h.BaseDocument):
+            how, out = 'self', self.doc
+        self.ops.append('save:' + how)
+        return out
+
+
+def valid_document(doc):
+    """The result of a history is only a case when it is a valid document: well-formed tree (parent pointers, unique
+    sibling names, canonical ids) with ids that are unique within the document."""
+    if h.wellformed(doc):
+        return False
+    secs, props = h.walk(doc)
+    ids = [doc._id] + [o._id for o in secs + props]
+    return len(set(ids)) == len(ids)
+
+
+N_HISTORIES = (60, 1200)      # quick, thorough
+
+
+def history_documents(tier, seed, work):
+    """(label, doc) of the documents with an editing history; deterministic for (tier, seed) up to the ids."""
+    install_terminology()
+    yield 'unresolved_link_include_repository', doc_unresolved()
+    quick = tier == 'quick'
+    for m, mech in enumerate(MECHANISMS):
+        part = ((m + (seed if isinstance(seed, int) else 0)) % 3, 3) if quick else None
+        yield 'merge_grid[%s]%s' % (mech, '' if part is None else '{%d mod 3}' % part[0]), merge_grid_doc(mech, part)
+    rnd = random.Random('history-%s-%s' % (tier, seed))
+    shapes = [s for s in h.tree_shapes(3 if quick else 4) if s]
+    n_docs = N_HISTORIES[0 if quick else 1]
+    for i in range(n_docs):
+        shape = shapes[i % len(shapes)]
+        doc = h.build_doc(shape, rnd, rich=True, hostile=(i % 5 == 4))
+        hist = History(doc, rnd, work).run(rnd.choice([1, 2, 4, 8, 16]))
+        out = hist.projection()
+        yield 'history(%s,%s)[%d]:%s' % (tier, seed, i, '>'.join(hist.ops)), out
+
+
+def c02_documents(tier, seed, work):
+    """(label, doc, kind, index): kind 'base' - freshly constructed documents of the shared generator, all entry
+    point combinations; kind 'history' - documents with an editing history, rotating entry points."""
+    for label, doc in c1.documents(tier, seed, extra=EXTRA):
+        yield label, doc, 'base', 0
+    n = 0
+    for label, doc in history_documents(tier, seed, work):
+        yield label, doc, 'history', n
+        n += 1
+
+
+def object_state(doc, path):
+    """Stable label of the state of the object at `path` (names from the root) as the public API shows it: 'merged'
+    (a Section that is merged with another one, by merge / link / include), 'link-or-include-unresolved', 'below-merged',
+    'plain'. Labelling only."""
+    if not path or path == '/':
+        return 'document'
+    nodes = [doc]
+    below = False
+    for name in path.strip('/').split('/'):
+        nxt = []
+        for n in nodes:
+            if isinstance(n, h.BaseSection):
+                below = below or bool(n.is_merged)
+                nxt += [p for p in list.__iter__(n._props) if p._name == name]
+            if not isinstance(n, h.BaseProperty):
+                nxt += [s for s in list.__iter__(n._sections) if s._name == name]
+        nodes = nxt
+    secs = [n for n in nodes if isinstance(n, h.BaseSection)]
+    if any(n.is_merged for n in secs):
+        return 'merged'
+    if any(n.link is not None or n.include is not None for n in secs):
+        return 'link-or-include-unresolved'
+    return 'below-merged' if below else 'plain'
+
+
+# ---------------------------------------------------------------------------------------------
+# the public view: what a document shows through its public attributes
+# ---------------------------------------------------------------------------------------------
+PUB_DOC = ('id', 'author', 'version', 'date', 'repository')
+PUB_SEC = ('name', 'id', 'type', 'definition', 'reference', 'repository', 'link', 'include', 'sec_cardinality',
+           'prop_cardinality')
+PUB_PROP = ('name', 'id', 'dtype', 'unit', 'uncertainty', 'definition', 'reference', 'dependency',
+            'dependency_value', 'value_origin', 'val_cardinality', 'values')
+
+
+def public_view(obj):
+    """Nested (kind, attributes, properties, sections) read through the public attributes only."""
+    if isinstance(obj, h.BaseProperty):
+        return ('property', tuple((a, h.freeze(h._val(getattr(obj, a)))) for a in PUB_PROP), (), ())
+    if isinstance(obj, h.BaseSection):
+        return ('section', tuple((a, h.freeze(h._val(getattr(obj, a)))) for a in PUB_SEC),
+                tuple(public_view(p) for p in obj.properties), tuple(public_view(s) for s in obj.sections))
+    return ('document', tuple((a, h.freeze(h._val(getattr(obj, a)))) for a in PUB_DOC), (),
+            tuple(public_view(s) for s in obj.sections))
+
+
+def public_differences(a, b, path=''):
+    """(feature, object path, detail) for two public views."""
+    out = []
+    if a[0] != b[0]:
+        return [('kind', path or '/', '%s vs %s' % (a[0], b[0]))]
+    here = path + '/' + str(dict(a[1]).get('name')) if a[0] != 'document' else ''
+    for (attr, va), (_attr, vb) in zip(a[1], b[1]):
+        if va != vb:
+            out.append(('%s.%s' % (a[0], attr), here or '/', 'saved document shows %r, loaded %r' % (va, vb)))
+    for idx, key in ((2, 'properties'), (3, 'sections')):
+        if len(a[idx]) != len(b[idx]):
+            out.append(('%s.%s:count' % (a[0], key), here or '/', 'saved document shows %d %s, loaded %d'
+                        % (len(a[idx]), key, len(b[idx]))))
+        else:
+            for x, y in zip(a[idx], b[idx]):
+                out += public_differences(x, y, here)
+    return out
+
+
+# ---------------------------------------------------------------------------------------------
 # entry points
 # ---------------------------------------------------------------------------------------------
 WRITERS = ['ODMLWriter.to_string', 'ODMLWriter.write_file', 'odml.save']
 READERS = ['ODMLReader.from_string', 'ODMLReader.from_file', 'odml.load']
 
 
-def write_doc(name, fmt, doc, path):
-    """-> ('exc', e) | ('ret', (text, path)); output is available both as str and as file."""
+STALE = '# content of an earlier, longer file at the same path\n' * 6000
+
+
+def write_doc(name, fmt, doc, path, stale=False):
+    """-> ('exc', e) | ('ret', (text, path)); output is available both as str and as file.
+    stale=True: the file writers find an existing, longer file at `path` (saving replaces it)."""
     if os.path.exists(path):
         os.remove(path)
+    if stale and name != 'ODMLWriter.to_string':
+        with open(path, 'w', encoding='utf-8') as f:
+            f.write(STALE)
     if name == 'ODMLWriter.to_string':
         r = h.call(ODMLWriter(fmt).to_string, doc)
     elif name == 'ODMLWriter.write_file':
@@ -102,7 +782,9 @@ def _collect(found, check, feature, obj, field, detail, pair):
     found.setdefault((check, feature, obj, field), {'pairs': set(), 'detail': detail})['pairs'].add(pair)
 
 
-def _judge(found, doc, k, loaded, pair, strip=False):
+def _judge(found, doc, k, loaded, pair, strip=False, public=None):
+    """public: public_view(doc) computed before saving - then the loaded document must also SHOW the same through
+    its public attributes (reported only where the comparison of the stored fields found nothing)."""
     if k == 'exc':
         _collect(found, 'reader-accepts', c1.exc_feature(loaded), '/', None,
                  'reader raised %s: %s' % (type(loaded).__name__, str(loaded)[:200]), pair)
@@ -110,8 +792,17 @@ def _judge(found, doc, k, loaded, pair, strip=False):
     if not isinstance(loaded, h.BaseDocument):
         _collect(found, 'reader-accepts', 'no-document-returned', '/', None, 'reader returned %r' % (loaded,), pair)
         return
-    for d in c1.doc_differences(doc, loaded, strip=strip):
+    diffs = c1.doc_differences(doc, loaded, strip=strip)
+    for d in diffs:
         _collect(found, d['clause'], d['feature'], d['object'], d.get('field'), d['detail'], pair)
+    if public is not None and not diffs:
+        kp, shown = h.call(public_view, loaded)
+        if kp == 'exc':
+            _collect(found, 'public-view-preserved', 'unreadable:' + c1.exc_feature(shown), '/', None,
+                     'reading the public attributes of the loaded document raised %r' % (shown,), pair)
+        elif shown != public:
+            for feature, obj, detail in public_differences(public, shown):
+                _collect(found, 'public-view-preserved', feature, obj, None, detail, pair)
 
 
 def reader_mode(fmt, reader):
@@ -145,27 +836,67 @@ def generalise3(triples, all_triples):
     return out
 
 
+def entry_points(kind, index):
+    """writer -> readers. Fresh documents: the full cross product. Documents with a history: every writer and every
+    reader once per format (a rotating Latin square), so that string and file entry points are both used."""
+    if kind == 'base':
+        return dict((w, list(READERS)) for w in WRITERS)
+    return dict((w, [READERS[(i + index) % len(READERS)]]) for i, w in enumerate(WRITERS))
+
+
+class StateLabels(object):
+    """Documents with a history: the class of a failure also says in what state the failing object is (merged,
+    below a merged Section, ...) - unless freshly constructed documents (which come first) fail in the same class,
+    i.e. the failure does not need a history."""
+
+    def __init__(self):
+        self.fresh = set()
+
+    def __call__(self, cls, kind, doc, obj):
+        key = tuple(sorted((k, str(v)) for k, v in cls.items()))
+        if kind == 'base':
+            self.fresh.add(key)
+        elif key not in self.fresh:
+            cls = dict(cls)
+            cls['state'] = object_state(doc, obj)
+        return cls
+
+
 def run_roundtrip(tier, seed):
     col = h.Collector(
         'C02.dict_roundtrip',
         rule='documents = harness.gen_docs (all forest shapes up to %d sections x random fillings) + fixed documents '
              '(all dtypes, every cardinality shape incl. min == max, edge strings, every optional attribute, strings '
              'YAML/JSON could re-type as values and as attributes, uncertainty 0 / 0.0) x {JSON, YAML} x 3 writer x 3 '
-             'reader entry points, plus DictWriter.to_dict -> DictReader(strict|lenient).to_odml; distinct = (document '
-             'content signature, format, writer, reader)' % (3 if tier == 'quick' else 4), exhaustive=False)
+             'reader entry points, plus DictWriter.to_dict -> DictReader(strict|lenient).to_odml; + documents with an '
+             'editing history (%d merge/link/include mechanisms x 24 combinations of own / taken-over definition and '
+             'reference; %d generated documents x 1..16 random public-API operations x projection self / clone / '
+             'export_leaf; link / include / repository from the constructors) x {JSON, YAML} x rotating entry points '
+             '(each writer and reader once, file writers over an existing longer file) + dict level; loaded document '
+             'compared on the stored fields and on what it shows through the public attributes; distinct = (document '
+             'content signature [+ history], format, writer, reader)'
+             % (3 if tier == 'quick' else 4, len(MECHANISMS), N_HISTORIES[0 if tier == 'quick' else 1]), exhaustive=False)
     agg = c1.Agg(col)
+    with_state = StateLabels()
     work = c1.fresh_workdir('c02_roundtrip')
     writer_raised = 0
+    not_valid = 0
     try:
-        for label, doc in c1.documents(tier, seed, extra=EXTRA):
-            sig = c1.doc_signature(doc)
+        for label, doc, kind, index in c02_documents(tier, seed, work):
+            if kind == 'history' and not valid_document(doc):
+                not_valid += 1          # the operations did not leave a valid document: not a case of this property
+                continue
+            sig = c1.doc_signature(doc) if kind == 'base' else (c1.doc_signature(doc), label.split('[')[0],
+                                                                 label.split(':', 1)[-1])
             before = h.snap(doc, parent=False)
+            public = public_view(doc)
             found = {}
             all_triples = []
+            readers = entry_points(kind, index)
             for fmt in FORMATS:
                 path = os.path.join(work, 'doc.' + fmt.lower())
                 for wname in WRITERS:
-                    w = write_doc(wname, fmt, doc, path)
+                    w = write_doc(wname, fmt, doc, path, stale=kind == 'history')
                     if w[0] == 'exc':
                         # a valid document must be writable: the statement has no "or raises" for JSON/YAML
                         writer_raised += 1
@@ -176,12 +907,12 @@ def run_roundtrip(tier, seed):
                                  (fmt, wname, 'writer'))
                         continue
                     text, fpath = w[1]
-                    for rname in READERS:
+                    for rname in readers[wname]:
                         col.case(cls_key=(sig, fmt, wname, rname),
                                  sample='%s | %s %s -> %s' % (label, fmt, wname, rname))
                         all_triples.append((fmt, wname, rname))
                         k, loaded = read_doc(rname, fmt, text, fpath)
-                        _judge(found, doc, k, loaded, (fmt, wname, rname))
+                        _judge(found, doc, k, loaded, (fmt, wname, rname), public=public)
             # dict level (format independent)
             k, d = h.call(DictWriter().to_dict, doc)
             if k == 'exc':
@@ -196,15 +927,16 @@ def run_roundtrip(tier, seed):
                     all_triples.append(trip)
                     rd = DictReader(show_warnings=False, ignore_errors=lenient)
                     k2, loaded = h.call(rd.to_odml, {'Document': d, 'odml-version': c1.FORMAT_VERSION_11})
-                    _judge(found, doc, k2, loaded, trip)
+                    _judge(found, doc, k2, loaded, trip, public=public)
             for (check, feature, obj, field), info in found.items():
                 for fl, wl, rl in generalise3(info['pairs'], all_triples):
                     agg.add(check='C02.dict_roundtrip/' + check,
-                            cls={'clause': check, 'feature': feature, 'format': fl, 'writer': wl, 'reader': rl},
+                            cls=with_state({'clause': check, 'feature': feature, 'format': fl, 'writer': wl,
+                                            'reader': rl}, kind, doc, obj),
                             witness={'doc': label, 'object': obj, 'field': field,
                                      'entry_points': sorted(info['pairs'])[:3]},
                             detail=info['detail'] + '; contract: loaded document equals the saved one exactly')
-            if h.snap(doc, parent=False) != before:
+            if h.snap(doc, parent=False) != before or public_view(doc) != public:
                 agg.add(check='C02.dict_roundtrip/writer-leaves-document-unchanged',
                         cls={'clause': 'writer-leaves-document-unchanged', 'feature': 'any'},
                         witness={'doc': label}, detail='saving/loading changed the original document: %s'
@@ -214,6 +946,7 @@ def run_roundtrip(tier, seed):
     agg.flush()
     res = col.result()
     res['writer_raised'] = writer_raised
+    res['histories_not_leaving_a_valid_document'] = not_valid
     return res
 
 
@@ -316,6 +1049,9 @@ def foreign_dict(doc, native_dates=False, python_names=False, omit_empty=False):
         put(d, 'id', s._id)
         put(d, 'definition', s._definition)
         put(d, 'reference', s._reference)
+        put(d, 'repository', s._repository)
+        put(d, 'link', s._link)
+        put(d, 'include', s._include)
         put(d, 'sec_cardinality', card(s._sec_cardinality))
         put(d, 'prop_cardinality', card(s._prop_cardinality))
         props = [prop(p) for p in list.__iter__(s._props)]
@@ -332,19 +1068,77 @@ def foreign_dict(doc, native_dates=False, python_names=False, omit_empty=False):
     put(d, 'version', doc._version)
     put(d, 'date', None if doc._date is None else _plain(doc._date, native_dates))
     put(d, 'id', doc._id)
+    put(d, 'repository', doc._repository)
     d['sections'] = [sec(s) for s in list.__iter__(doc._sections)]
     return {'odml-version': c1.FORMAT_VERSION_11, 'Document': d}
+
+
+# Keys whose value is a text that the layout stores as it is (what each key means is fixed by the format).
+TEXT_KEYS = {'Document': ('author', 'version', 'id', 'repository'),
+             'Section': ('name', 'type', 'id', 'definition', 'reference', 'repository', 'link', 'include'),
+             'Property': ('name', 'id', 'type', 'unit', 'definition', 'reference', 'dependency', 'dependencyvalue',
+                          'value_origin')}
+PYTHON_KEY = {'Property': {'type': 'dtype', 'dependencyvalue': 'dependency_value', 'value': 'values'}}
+
+
+def description_problems(top, doc):
+    """The written structure, read by its keys (no library code), describes the document: same tree in the same
+    order, and every text attribute the document holds stands under its key - nothing missing, nothing added.
+    Values, dates, numbers and cardinalities are left to the round trip (their encoding is the reader's business).
+    -> (feature, object path, detail)"""
+    out = []
+    want = foreign_dict(doc)['Document']
+    got = top.get('Document') if isinstance(top, dict) else None
+    if not isinstance(got, dict):
+        return out          # reported by layout_problems
+
+    def key_of(level, node, key):
+        alt = PYTHON_KEY.get(level, {}).get(key)
+        return node.get(key, node.get(alt) if alt else None)
+
+    def walk(level, w, g, path):
+        if not isinstance(g, dict):
+            return
+        for key in TEXT_KEYS[level]:
+            wv, gv = w.get(key), key_of(level, g, key)
+            if wv != gv:
+                out.append(('%s.%s' % (level.lower(), key), path or '/',
+                            'document holds %r, written structure has %r' % (wv, gv)))
+        for child, plural, single in (('Section', 'sections', 'section'), ('Property', 'properties', 'property')):
+            if level == 'Property' or (level == 'Document' and child == 'Property'):
+                continue
+            wl = w.get(plural) or []
+            gl = g.get(plural, g.get(single)) or []
+            if not isinstance(gl, list):
+                continue    # reported by layout_problems
+            if len(wl) != len(gl):
+                out.append(('%s.%s:count' % (level.lower(), plural), path or '/',
+                            'document holds %d %s, written structure has %d' % (len(wl), plural, len(gl))))
+                continue
+            for wc, gc in zip(wl, gl):
+                walk(child, wc, gc, '%s/%s' % (path, wc.get('name')))
+        if level == 'Property':
+            gv = key_of(level, g, 'value')
+            if isinstance(gv, list) and len(gv) != len(w.get('value') or []):
+                out.append(('property.value:count', path, 'document holds %d values, written structure has %d'
+                            % (len(w.get('value') or []), len(gv))))
+
+    walk('Document', want, got, '')
+    return out
 
 
 def run_layout(tier, seed):
     col = h.Collector(
         'C02.dict_layout',
         rule='(a) every document of the generator x {JSON, YAML} x 3 writers: the written text, parsed with json / '
-             'yaml.safe_load, has the 1.1 layout; (b) every document serialised by an independent 1.1-layout writer '
+             'yaml.safe_load, has the 1.1 layout and, read by its keys, describes the document (tree, order, every '
+             'text attribute); (b) every document serialised by an independent 1.1-layout writer '
              '(format key names | python-side key names, dates as text | native) and loaded through DictReader strict '
              '/ lenient, ODMLReader JSON / YAML from_string and odml.load; distinct = (document content signature, '
-             'format/writer or flavour/reader)', exhaustive=False)
+             'format/writer or flavour/reader); documents with an editing history (see C02.dict_roundtrip): one '
+             'writer per format and one foreign flavour, rotating', exhaustive=False)
     agg = c1.Agg(col)
+    with_state = StateLabels()
     work = c1.fresh_workdir('c02_layout')
     try:
         allowed = allowed_keys()
@@ -361,14 +1155,21 @@ def run_layout(tier, seed):
                 agg.add(check='C02.dict_layout/format-tables',
                         cls={'clause': 'format-tables', 'feature': 'extra-keys:%s' % level},
                         witness={'level': level}, detail='format.py defines %r beyond odML 1.1' % sorted(extra))
-        for label, doc in c1.documents(tier, seed, extra=EXTRA):
-            sig = c1.doc_signature(doc)
+        flavours = (('format-keys/text-dates', False, False, False),
+                    ('format-keys/native-dates', True, False, False),
+                    ('python-keys/text-dates', False, True, False),
+                    ('format-keys/empty-containers-omitted', False, False, True))
+        for label, doc, kind, index in c02_documents(tier, seed, work):
+            if kind == 'history' and not valid_document(doc):
+                continue
+            sig = c1.doc_signature(doc) if kind == 'base' else (c1.doc_signature(doc), label.split('[')[0],
+                                                                 label.split(':', 1)[-1])
             # (a) what the library writes
             for fmt in FORMATS:
                 path = os.path.join(work, 'doc.' + fmt.lower())
-                for wname in WRITERS:
+                for wname in (WRITERS if kind == 'base' else [WRITERS[(index + FORMATS.index(fmt)) % len(WRITERS)]]):
                     col.case(cls_key=(sig, fmt, wname), sample='%s | %s %s' % (label, fmt, wname))
-                    w = write_doc(wname, fmt, doc, path)
+                    w = write_doc(wname, fmt, doc, path, stale=kind == 'history')
                     if w[0] == 'exc':
                         continue        # reported by run_roundtrip
                     text = w[1][0]
@@ -383,13 +1184,16 @@ def run_layout(tier, seed):
                         agg.add(check='C02.dict_layout/1.1-layout',
                                 cls={'clause': '1.1-layout', 'feature': feature, 'format': fmt},
                                 witness={'doc': label, 'writer': wname}, detail=str(detail))
+                    for feature, obj, detail in description_problems(top, doc):
+                        agg.add(check='C02.dict_layout/written-structure-describes-document',
+                                cls=with_state({'clause': 'written-structure-describes-document',
+                                                'feature': feature, 'format': fmt}, kind, doc, obj),
+                                witness={'doc': label, 'writer': wname, 'object': obj},
+                                detail=detail + '; contract: the written structure is the document in the 1.1 layout')
             # (b) what another tool writes
             found = {}
             all_triples = []
-            for flavour, native, pynames, omit in (('format-keys/text-dates', False, False, False),
-                                                   ('format-keys/native-dates', True, False, False),
-                                                   ('python-keys/text-dates', False, True, False),
-                                                   ('format-keys/empty-containers-omitted', False, False, True)):
+            for flavour, native, pynames, omit in (flavours if kind == 'base' else [flavours[index % len(flavours)]]):
                 d = foreign_dict(doc, native_dates=native, python_names=pynames, omit_empty=omit)
                 own_problems = layout_problems(d, allowed, doc)
                 if own_problems:
@@ -424,7 +1228,8 @@ def run_layout(tier, seed):
             for (check, feature, obj, field), info in found.items():
                 for fl, _wl, rl in generalise3(info['pairs'], all_triples):
                     agg.add(check='C02.dict_layout/foreign-' + check,
-                            cls={'clause': 'foreign-' + check, 'feature': feature, 'flavour': fl, 'reader': rl},
+                            cls=with_state({'clause': 'foreign-' + check, 'feature': feature, 'flavour': fl,
+                                            'reader': rl}, kind, doc, obj),
                             witness={'doc': label, 'object': obj, 'field': field,
                                      'entry_points': sorted(info['pairs'])[:3]},
                             detail=info['detail'] + '; contract: a structure in the 1.1 layout loads to the '
@@ -444,11 +1249,28 @@ def run_cross_format(tier, seed):
         'C02.cross_format',
         rule='every document of the generator: load(JSON text) vs load(YAML text) compared exactly, load(JSON text) vs '
              'load(XML text) compared after trimming text (YAML vs XML only where JSON and YAML differ; string entry points; the file entry points are covered '
-             'by the round trips); distinct = (document content signature, pair of formats)', exhaustive=False)
+             'by the round trips); distinct = (document content signature, pair of formats); incl. the documents with an '
+             'editing history (see C02.dict_roundtrip)', exhaustive=False)
     agg = c1.Agg(col)
+    work = c1.fresh_workdir('c02_cross')
+    try:
+        skipped = _cross_format(tier, seed, work, col, agg)
+    finally:
+        c1.drop_workdir(work)
+    agg.flush()
+    res = col.result()
+    res['pairs_skipped_because_a_side_failed'] = skipped
+    return res
+
+
+def _cross_format(tier, seed, work, col, agg):
     skipped = 0
-    for label, doc in c1.documents(tier, seed, extra=EXTRA):
-        sig = c1.doc_signature(doc)
+    with_state = StateLabels()
+    for label, doc, kind, _index in c02_documents(tier, seed, work):
+        if kind == 'history' and not valid_document(doc):
+            continue
+        sig = c1.doc_signature(doc) if kind == 'base' else (c1.doc_signature(doc), label.split('[')[0],
+                                                             label.split(':', 1)[-1])
         loaded = {}
         for fmt in ('JSON', 'YAML', 'XML'):
             k, text = h.call(ODMLWriter(fmt).to_string, doc)
@@ -475,13 +1297,11 @@ def run_cross_format(tier, seed):
                 json_yaml_equal = True
             for d in diffs:
                 agg.add(check='C02.cross_format/%s==%s/%s' % (a.lower(), b.lower(), d['clause']),
-                        cls={'clause': d['clause'], 'feature': d['feature'], 'formats': '%s/%s' % (a, b)},
+                        cls=with_state({'clause': d['clause'], 'feature': d['feature'], 'formats': '%s/%s' % (a, b)},
+                                       kind, doc, d['object']),
                         witness={'doc': label, 'object': d['object'], 'field': d.get('field')},
                         detail='%s: %s, %s: %s' % (a, d['detail'].split(', loaded ')[0].replace('original ', ''), b,
                                                    d['detail'].split(', loaded ')[-1]) +
                                '; contract: both formats load to the same document' +
                                (' up to trimming of text' if strip else ''))
-    agg.flush()
-    res = col.result()
-    res['pairs_skipped_because_a_side_failed'] = skipped
-    return res
+    return skipped
